@@ -65,6 +65,10 @@ def vec_mem_width(name):
 INPUT_CALL = re.compile(r"core::str::<impl str>::parse$|::from_str_radix$|\bFromStr>?::from_str$|::from_(be|le|ne)_bytes$|\bReadBytesExt>?::read_\w+$|BinReaderExt>?::read_\w+$|\bBinRead>?::read\w*$|::read_(u|i)\d+\w*$|::get_(u|i)\d+\w*$|\bfs::Metadata::len$")
 
 
+# C08.R1: when set, a narrowing unsigned cast to u8 / u16 is a sink with goal `value <= MAX` (off by default: the parser rules judge wrap-around in R4)
+CAST_SINKS = [False]
+
+
 class Lin:
     __slots__ = ("c", "t", "_h")
 
@@ -444,6 +448,14 @@ class Analysis:
     def assign(self, st, bb, idx, s):
         p = s["p"]
         r = s["r"]
+        if CAST_SINKS[0] and r["k"] == "Cast" and len(p) > 1 and isinstance(p[-1], dict) and p[-1].get("t") in ("u8", "u16") and not s.get("x"):
+            # `self.count = n as u16`: the cast writes straight into a field
+            o_ = r["o"][0]
+            src_ = self.operand(st, o_, bb, idx)
+            sty_ = o_.get("ty") if o_["k"] == "c" else (self.ty(o_["p"][0]) if len(o_["p"]) == 1 else (o_["p"][-1].get("t", "") if isinstance(o_["p"][-1], dict) else ""))
+            dty_ = p[-1]["t"]
+            if src_ is not None and UNSIGNED.match(sty_ or "") and WIDTH.get(sty_, 0) > WIDTH[dty_]:
+                self.sink(st, bb, "narrowcast", "%s as %s" % (sty_, dty_), [src_.addc(-((1 << WIDTH[dty_]) - 1))], [src_], "%s:%d" % (self.b.file, s.get("l", 0)))
         if len(p) == 2 and p[1] == "*" and re.match(r"^&mut (u8|u16|u32|u64|usize)$", self.ty(p[0])):
             v_ = None
             if r["k"] == "Use":
@@ -588,6 +600,8 @@ class Analysis:
             if src is not None and INT.match(dty) and (UNSIGNED.match(sty or "") or src.is_const()) and WIDTH.get(dty, 0) >= WIDTH.get(sty or "", 999 if not src.is_const() else 0):
                 val = src
             elif src is not None and INT.match(dty):
+                if CAST_SINKS[0] and dty in ("u8", "u16") and UNSIGNED.match(sty or "") and not s.get("x"):
+                    self.sink(st, bb, "narrowcast", "%s as %s" % (sty, dty), [src.addc(-((1 << WIDTH[dty]) - 1))], [src], "%s:%d" % (self.b.file, s.get("l", 0)))
                 val = self.fresh("cast", bb, idx, "derived", "")
                 self.derive(val, [src])
                 if UNSIGNED.match(sty or "") and UNSIGNED.match(dty):
